@@ -37,7 +37,9 @@ type IdP struct {
 	// Revocations records tokens presented at the revoke endpoint, in order.
 	Revocations []string
 	// GroupVersion increments on each membership change (directory history for C17).
-	GroupVersion int
+	GroupVersion  int
+	DirHistory    map[string][]DirectoryVersion
+	DeletedGroups map[string]bool
 }
 
 // IdPUser is directory ground truth for one user.
@@ -90,6 +92,7 @@ func (p *IdP) AddUser(email string, verified bool, groups ...string) {
 	p.mu.Lock()
 	defer p.mu.Unlock()
 	p.Users[email] = &IdPUser{Email: email, Verified: verified, Groups: append([]string{}, groups...)}
+	p.snapshotGroups()
 }
 
 // Admin operations (plan steps).
@@ -98,6 +101,7 @@ func (p *IdP) SetDisabled(email string, v bool) {
 	defer p.mu.Unlock()
 	if u := p.Users[email]; u != nil {
 		u.Disabled = v
+		p.snapshotGroups()
 	}
 }
 
@@ -115,6 +119,7 @@ func (p *IdP) SetGroups(email string, groups []string) {
 	if u := p.Users[email]; u != nil {
 		u.Groups = append([]string{}, groups...)
 		p.GroupVersion++
+		p.snapshotGroups()
 	}
 }
 
@@ -129,6 +134,20 @@ func (p *IdP) RevokeUserTokens(email string) {
 	}
 	for _, t := range p.refr {
 		if t.email == email {
+			t.revoked = true
+		}
+	}
+}
+
+// RevokeGrant revokes one refresh token and every access token issued under it.
+func (p *IdP) RevokeGrant(refresh string) {
+	p.mu.Lock()
+	defer p.mu.Unlock()
+	if t := p.refr[refresh]; t != nil {
+		t.revoked = true
+	}
+	for _, t := range p.access {
+		if t.refresh == refresh {
 			t.revoked = true
 		}
 	}
@@ -273,6 +292,17 @@ func (p *IdP) Handler() http.Handler {
 			p.backchannel("introspect", rw, req, p.tokeninfo)
 		case strings.HasSuffix(path, "/v1/revoke") || path == "/o/oauth2/revoke":
 			p.backchannel("revoke", rw, req, p.revoke)
+		case path == "/oauth2/v4/sa-token":
+			// service-account token endpoint of the Google directory client
+			p.backchannel("sa-token", rw, req, func(rw http.ResponseWriter, req *http.Request) {
+				writeJSON(rw, 200, map[string]interface{}{"access_token": "sa-access-token", "token_type": "Bearer", "expires_in": 3600})
+			})
+		case strings.HasPrefix(req.URL.EscapedPath(), "/admin/directory/v1/groups/"):
+			ep := "dir-has"
+			if strings.HasSuffix(req.URL.Path, "/members") {
+				ep = "dir-list"
+			}
+			p.backchannel(ep, rw, req, p.directory)
 		default:
 			http.NotFound(rw, req)
 		}
@@ -402,6 +432,111 @@ func (p *IdP) authorize(rw http.ResponseWriter, req *http.Request) {
 	}
 	ru.RawQuery = v.Encode()
 	http.Redirect(rw, req, ru.String(), http.StatusFound)
+}
+
+// DirectoryVersion is one historical member list of a group (ground truth for cache oracles).
+type DirectoryVersion struct {
+	At      time.Time
+	Members map[string]bool
+	Exists  bool
+}
+
+// snapshotGroups appends the current member list of every group to the history (called on every directory change).
+func (p *IdP) snapshotGroups() {
+	if p.DirHistory == nil {
+		p.DirHistory = map[string][]DirectoryVersion{}
+	}
+	cur := map[string]map[string]bool{}
+	for _, u := range p.Users {
+		for _, g := range u.Groups {
+			if cur[g] == nil {
+				cur[g] = map[string]bool{}
+			}
+			if !u.Disabled {
+				cur[g][u.Email] = true
+			}
+		}
+	}
+	for g := range p.DirHistory {
+		if cur[g] == nil {
+			cur[g] = nil
+		}
+	}
+	for g, m := range cur {
+		p.DirHistory[g] = append(p.DirHistory[g], DirectoryVersion{At: time.Now(), Members: m, Exists: m != nil && !p.DeletedGroups[g]})
+	}
+}
+
+// MemberAtSomeTime reports whether some historical version of the group's list agrees with the claim.
+func (p *IdP) MemberAtSomeTime(group, email string, claim bool) bool {
+	p.mu.Lock()
+	defer p.mu.Unlock()
+	hs := p.DirHistory[group]
+	if len(hs) == 0 {
+		return !claim // a group the directory never knew has no members
+	}
+	for _, h := range hs {
+		if (h.Exists && h.Members[email]) == claim {
+			return true
+		}
+	}
+	return false
+}
+
+// directory serves the Google Admin SDK shapes: members.list and members.hasMember.
+func (p *IdP) directory(rw http.ResponseWriter, req *http.Request) {
+	parts := strings.Split(strings.TrimPrefix(req.URL.EscapedPath(), "/admin/directory/v1/groups/"), "/")
+	unesc := func(s string) string { v, _ := url.PathUnescape(s); return v }
+	p.mu.Lock()
+	defer p.mu.Unlock()
+	gerr := func(code int, msg string) {
+		writeJSON(rw, code, map[string]interface{}{"error": map[string]interface{}{"code": code, "message": msg, "errors": []map[string]string{{"message": msg, "reason": "x"}}}})
+	}
+	if len(parts) < 2 {
+		gerr(404, "notFound")
+		return
+	}
+	group := unesc(parts[0])
+	members := map[string]bool{}
+	known := false
+	for _, u := range p.Users {
+		for _, g := range u.Groups {
+			if g == group {
+				known = true
+				if !u.Disabled {
+					members[u.Email] = true
+				}
+			}
+		}
+	}
+	if !known || p.DeletedGroups[group] {
+		gerr(404, "Resource Not Found: groupKey")
+		return
+	}
+	switch {
+	case parts[1] == "members":
+		var ms []map[string]string
+		for _, e := range sortedKeys(members) {
+			ms = append(ms, map[string]string{"email": e, "type": "USER", "kind": "admin#directory#member"})
+		}
+		writeJSON(rw, 200, map[string]interface{}{"kind": "admin#directory#members", "members": ms})
+	case parts[1] == "hasMember" && len(parts) >= 3:
+		writeJSON(rw, 200, map[string]interface{}{"isMember": members[unesc(parts[2])]})
+	default:
+		gerr(404, "notFound")
+	}
+}
+
+// DeleteGroup makes the directory report a group as missing (admin operation).
+func (p *IdP) DeleteGroup(group string, deleted bool) {
+	p.mu.Lock()
+	defer p.mu.Unlock()
+	if p.DeletedGroups == nil {
+		p.DeletedGroups = map[string]bool{}
+	}
+	p.DeletedGroups[group] = deleted
+	p.GroupVersion++
+	p.snapshotGroups()
 }
 
 func (p *IdP) clientOK(req *http.Request) bool {
